@@ -478,6 +478,20 @@ class _Fn:
         # functools.partial(jnp.where, mask) etc.
         return r.path in BUFFER_FRESH_LEAF_FNS or r.path.startswith('jax.numpy.')
       return r.path in BUFFER_FRESH_LEAF_FNS
+    if r.kind == 'func' and isinstance(r.func.node, (ast.FunctionDef, ast.AsyncFunctionDef)):
+      # a named per-leaf function (def scale(leaf): return leaf * w): fresh when every return is a computed expression
+      rets = [x for x in ast.walk(r.func.node) if isinstance(x, ast.Return)]
+      def fresh_expr(b):
+        if isinstance(b, (ast.BinOp, ast.UnaryOp, ast.Compare)):
+          return True
+        if isinstance(b, ast.Call):
+          try:
+            p_ = FuncFlow.of(self.pa.repo, r.func).ext(b.func)
+          except Exception:  # pylint: disable=broad-except
+            p_ = None
+          return p_ is not None and p_ not in BUFFER_PASSTHROUGH and (p_.startswith('jax.numpy.') or p_.startswith('numpy.') or p_.startswith('jax.'))
+        return False
+      return bool(rets) and all(x.value is not None and fresh_expr(x.value) for x in rets)
     return False
 
   def _call_tags_buffer(self, c: ast.Call) -> Set[Tag]:
